@@ -213,6 +213,37 @@ Section Inst.
     rewrite (ukc_q_ws_independent O M (zero_v0 O w1) w0 q _ W (proj1 (good_zero_v0 _ G1)) (proj1 G0) Hi).
     reflexivity.
   Qed.
+  (* the three Jacobians with the update flag set do not depend on the incoming workspace *)
+  Lemma jac_fill_ws (wa wb : WS) G b (f : SV T -> list T) :
+    (forall j, 0 < j < NB -> gXb O wa j = gXb O wb j /\ jS O M wa j = jS O M wb j) ->
+    b < NB -> jac_fill O M wa G b f = jac_fill O M wb G b f.
+  Proof.
+    intros H Hb. unfold jac_fill.
+    pose proof (path_bound M W qd Hqd b Hb) as PB.
+    revert G. unfold NB in *. induction (path_to_base M (nbodies M) b) as [|j P IH]; intros G; [reflexivity|]. cbn [fold_left].
+    assert (Hj : 0 < j < nbodies M) by (specialize (PB j (or_introl eq_refl)); lia).
+    destruct (H j Hj) as [e1 e2]. rewrite e1, e2. apply IH. intros x Hx. apply PB. right. exact Hx.
+  Qed.
+  Theorem jacobians_ws_independent (w1 w2 : WS) (id : N) (p : V3 T) G6 G3 : Good O M w1 -> Good O M w2 ->
+    (id < fixed_disc)%N -> 0 < N.to_nat id < NB ->
+    point_jacobian6 O M (ukc_q O M w1 q) id p G6 = point_jacobian6 O M (ukc_q O M w2 q) id p G6 /\
+    point_jacobian O M (ukc_q O M w1 q) id p G3 = point_jacobian O M (ukc_q O M w2 q) id p G3 /\
+    body_spatial_jacobian O M (ukc_q O M w1 q) id G6 = body_spatial_jacobian O M (ukc_q O M w2 q) id G6.
+  Proof.
+    intros G1 G2 Hid Hb.
+    assert (E : forall j, 0 < j < NB -> gXb O (ukc_q O M w1 q) j = gXb O (ukc_q O M w2 q) j /\
+                                        jS O M (ukc_q O M w1 q) j = jS O M (ukc_q O M w2 q) j).
+    { intros j Hj. split.
+      - rewrite (w_Xb w1 G1 j Hj), (w_Xb w2 G2 j Hj). reflexivity.
+      - rewrite (w_S w1 G1 j Hj), (w_S w2 G2 j Hj). reflexivity. }
+    pose proof (movable_not_fixed id Hid) as Hfix.
+    assert (Eb : b2b O M (ukc_q O M w1 q) id p = b2b O M (ukc_q O M w2 q) id p).
+    { unfold b2b. replace (N.leb fixed_disc id) with false by (symmetry; apply N.leb_gt; exact Hid).
+      rewrite (proj1 (E _ Hb)). reflexivity. }
+    unfold point_jacobian6, point_jacobian, body_spatial_jacobian, ref_body. rewrite Hfix. cbn [fst]. rewrite Eb.
+    rewrite (proj1 (E _ Hb)).
+    repeat split; apply jac_fill_ws; try exact E; unfold NB in *; lia.
+  Qed.
   Theorem point_jacobian6_is_point_velocity (w0 w1 : WS) (id : N) (p : V3 T) : Good O M w0 -> Good O M w1 ->
     (id < fixed_disc)%N -> 0 < N.to_nat id < NB ->
     mvmul O (point_jacobian6 O M (ukc_q O M w0 q) id p (mzeros t0 6 (dof_count M))) qd =
